@@ -325,3 +325,78 @@ func VH_C02_omitempty() {
 		}
 	}
 }
+
+// vAnon: two anonymous struct types with the same field names at different
+// positions (and a third with another kind under the same name): a path
+// names a field by the names along the way, not by a position learnt on
+// another type.
+type vAnon struct {
+	Item
+	Src struct {
+		Port int64 `sod:"index"`
+		Pid  int64
+	}
+	Dst struct {
+		Pid  int64
+		Port int64
+	}
+	Peer struct {
+		Name string
+		Port string `sod:"index"`
+	}
+}
+
+// VH_C02_anon_paths: searches on Src.Port (indexed), Dst.Port and Dst.Pid
+// (un-indexed), Peer.Port (a string under the same name) return exactly the
+// objects whose field on THAT path matches, in any order of first use.
+func VH_C02_anon_paths() {
+	root := vTempDir()
+	db := Open(root)
+	LowercaseNames = false
+	vAssert("C02.anon.create", db.Create(&vAnon{}, DefaultSchema) == nil)
+	var objs []*vAnon
+	for k := 0; k < 2; k++ {
+		o := &vAnon{}
+		o.Src.Port, o.Src.Pid = vInt64("sport"), vInt64("spid")
+		o.Dst.Port, o.Dst.Pid = vInt64("dport"), vInt64("dpid")
+		o.Peer.Name, o.Peer.Port = "n", "p"
+		vAssert("C02.anon.insert", db.InsertOrUpdate(o) == nil)
+		objs = append(objs, o)
+	}
+	paths := []string{"Src.Port", "Src.Pid", "Dst.Port", "Dst.Pid"}
+	op := vhOps[vChoice("_sop", len(vhOps))]
+	p := vInt64("probe")
+	// two searches in a row: what the first resolved must not leak into the second
+	for round := 0; round < 2; round++ {
+		path := paths[vChoice("path", len(paths))]
+		s := db.Search(&vAnon{}, path, op, p)
+		vAssert("C02.anon.search.ok", s.Err() == nil)
+		if s.Err() != nil {
+			return
+		}
+		res, err := s.Collect()
+		vAssert("C02.anon.collect.ok", err == nil)
+		for _, o := range objs {
+			var fv int64
+			switch path {
+			case "Src.Port":
+				fv = o.Src.Port
+			case "Src.Pid":
+				fv = o.Src.Pid
+			case "Dst.Port":
+				fv = o.Dst.Port
+			case "Dst.Pid":
+				fv = o.Dst.Pid
+			}
+			c := 0
+			for _, r := range res {
+				if r.UUID() == o.UUID() {
+					c++
+				}
+			}
+			vAssert("C02.anon.member", vIff(vhCmp(op, fv, p), c == 1) && c <= 1)
+		}
+	}
+	sp := db.Search(&vAnon{}, "Peer.Port", "=", "p")
+	vAssert("C02.anon.string_path", sp.Err() == nil && sp.Len() == 2)
+}
